@@ -28,20 +28,24 @@ def renderer_classes(prog: Program) -> list[str]:
     return out
 
 
+ALTERNATIVE_RENDERERS = [("NixList", "simple_inline_preview")]  # methods whose non-None result other renderers use verbatim
+
+
 def content_findings(prog: Program, res: Results, rid: str, only_fields=None, describe="token-bearing"):
     """shared by C01 (all content fields) and C03 (comment-bearing fields only)"""
     r = res.rule(rid, f"every {describe} field of every renderer reaches the returned string on every path; a field may be "
                  f"absent only on the empty side of an emptiness/None test of the field itself (or of its owner)", floor=26)
     classes = renderer_classes(prog)
     total_returns = 0
-    for c in classes:
-        out = analyse_renderer(prog, c)
+    jobs = [(c, "rebuild") for c in classes] + [(c, e) for c, e in ALTERNATIVE_RENDERERS if c in classes and prog.method(c, e) is not None]
+    for c, entry in jobs:
+        out = analyse_renderer(prog, c, entry=entry)
         if out is None:
             continue
         flow, rets, table, problems, n_ob = out
         r.instances += 1
         total_returns += len(rets)
-        res.analysed_functions.add(f"{c}.rebuild")
+        res.analysed_functions.add(f"{c}.{entry}")
         content = [k for k, v in table.items() if v in ("content", "bool-content")]
         if only_fields is not None:
             content = [k for k in content if only_fields(prog, c, k)]
@@ -55,17 +59,17 @@ def content_findings(prog: Program, res: Results, rid: str, only_fields=None, de
             while owner_f is not None and owner_f.parent is not None:
                 owner_f = owner_f.parent
             ttxt = alpha(tnode, owner_f.node)[:70] if (tnode is not None and owner_f is not None) else p["test"][:70]
-            key = (c, p["field"], "never rendered" if p["kind"] == "never" else f"dropped under `{ttxt}` ({p['lacking']} side)")
+            key = (c if entry == "rebuild" else f"{c}.{entry}", p["field"], "never rendered" if p["kind"] == "never" else f"dropped under `{ttxt}` ({p['lacking']} side)")
             if key in seen:
                 continue
             seen.add(key)
-            f = prog.method(c, "rebuild")
+            f = prog.method(c, entry)
             where = f"{prog.funcs[site[0]].file}:{site[1]}" if site and site[0] in prog.funcs else f.loc(p["return"])
             if p["kind"] == "never":
-                msg = (f"{c}.rebuild: the return at line {p['return'].lineno} never contains field `{p['field']}` "
+                msg = (f"{c}.{entry}: the return at line {p['return'].lineno} never contains field `{p['field']}` "
                        f"(path: {p['test'] or 'unconditional'}): its tokens/comments vanish whenever this path is taken")
             else:
-                msg = (f"{c}.rebuild: field `{p['field']}` is rendered on one side of `{p['test']}` only (missing on the "
+                msg = (f"{c}.{entry}: field `{p['field']}` is rendered on one side of `{p['test']}` only (missing on the "
                        f"{p['lacking']} side), and that test is not an emptiness test of the field: the content is dropped "
                        f"whenever that branch runs")
             res.add(rid, key, where, msg)
